@@ -1145,6 +1145,23 @@ func (w *walker) call(e *ast.CallExpr) val {
 	case pkgPath == load.Module+"/packet" && callee.Name() == "NewPacketReader":
 		return vReader{}
 	case pkgPath == "bytes" && callee.Name() == "NewBuffer":
+		// the buffer starts with the octets of its argument: only an empty slice (make([]byte, 0, n) / nil) adds nothing
+		if len(e.Args) == 1 {
+			emptyArg := false
+			switch a := w.eval(e.Args[0]).(type) {
+			case vMake:
+				if k, isK := a.size.(vConst); isK && k.V != nil {
+					if n, okN := constant.Int64Val(k.V); okN && n == 0 {
+						emptyArg = true
+					}
+				}
+			case vConst:
+				emptyArg = a.V == nil && w.info().Types[e.Args[0]].IsNil()
+			}
+			if !emptyArg {
+				return vOpaque{"bytes.NewBuffer over a slice that is not provably empty: its octets precede everything written"}
+			}
+		}
 		ops := []*Op{}
 		return vLocalBuf{ops: &ops}
 	case pkgPath == "encoding/binary" && strings.HasPrefix(callee.Name(), "PutUint") && len(e.Args) == 2 && sig.Recv() != nil:
